@@ -12,6 +12,9 @@ class Side:
     """a mix-in outside the contracted hierarchy whose constructor takes the argument of the call"""
 
 
+unfinished = []
+
+
 def build(case, events, arglog, bare):
     need = dict((int(k), v) for k, v in case["need"])
     classes = []
@@ -42,12 +45,16 @@ def build(case, events, arglog, bare):
             ns["__new__"] = make_new()
         base = classes[i - 1] if i else icontract.DBC
         bases = (base, side) if case.get("mixin_at") == i else (base,)
+        if i == 0 and case.get("builtin") == "list":
+            bases = (list,) + bases          # a data structure on top of a built-in type: list.__init__ fills the instance
         cls = type("L%d" % i, bases, ns)
         for cid in ([] if bare else cd["invs"]):
             def make_inv(cid=cid):
                 def inv(self):
                     st = getattr(self, "_stage", 0)
                     events.append(["inv", cid, st])
+                    if case.get("builtin") == "list" and list(self) != [1, 2, 3]:
+                        unfinished.append(cid)   # evaluated before the built-in constructor had filled the instance
                     return st >= need.get(cid, 0)
                 inv.__name__ = "inv_%d" % cid
                 return inv
@@ -57,6 +64,8 @@ def build(case, events, arglog, bare):
 
 
 def construct(case, classes):
+    if case.get("builtin") == "list":
+        return classes[case["k"]]([1, 2, 3])
     if case.get("new_at") is not None and case["new_at"] <= case["k"]:
         return classes[case["k"]](7)
     return classes[case["k"]]()
@@ -71,6 +80,7 @@ def run_case(case):
     except BaseException:  # noqa: BLE001
         bare_ok = False
     events, arglog = [], []
+    del unfinished[:]
     classes = build(case, events, arglog, False)
     try:
         construct(case, classes)
@@ -81,6 +91,8 @@ def run_case(case):
         out = ["violation", int(m.group(1)) if m else -1]
     except BaseException as err:  # noqa: BLE001
         out = ["other", type(err).__name__, str(err)[:200]]
+    if unfinished and out[0] != "other":
+        out = ["other", "InvariantOnUnfinishedObject", "invariants %r were evaluated before list.__init__ had run" % unfinished]
     if bare_ok and out[0] != "other" and arglog != bare_log:
         out = ["other", "ConstructorArgumentsDiffer", "bare %r, with invariants %r" % (bare_log, arglog)]
     return {"events": events, "outcome": out}
